@@ -247,9 +247,12 @@ func JudgeProxy(c *ProxyCase, with, without *ProxyLab, fresh bool, raceRetries *
 	within := (!hasBody || n <= L) && (!c.bodyAllowed() || int64(len(c.Resp.Body)) <= M)
 	r := with.Run(c)
 	// Open finding of C01 (net/http, not Helios): an exchange WITH a request body whose only symptom is an
-	// unreadable response head/body is re-run (up to 3 times) and must then pass.
-	for try := 0; try < 3 && within && hasBody && n > 0 && abortSignature(r.out, r.err) && lab.Open(keyRace); try++ {
+	// unreadable response head/body is re-run (up to 8 times, pausing longer each time) and must then pass.
+	for try := 0; try < 8 && within && hasBody && n > 0 && abortSignature(r.out, r.err) && lab.Open(keyRace); try++ {
 		*raceRetries++
+		if try >= 2 { // on a heavily loaded machine the window of the race is wide: pause before trying again
+			time.Sleep(time.Duration(10<<(try-2)) * time.Millisecond)
+		}
 		r = with.Run(c)
 	}
 	got, err := r.out, r.err
@@ -334,8 +337,11 @@ func JudgeProxy(c *ProxyCase, with, without *ProxyLab, fresh bool, raceRetries *
 	// U
 	v.Labels = append(v.Labels, "within-limits")
 	ref := without.Run(c)
-	for try := 0; try < 3 && hasBody && n > 0 && abortSignature(ref.out, ref.err) && lab.Open(keyRace); try++ {
+	for try := 0; try < 8 && hasBody && n > 0 && abortSignature(ref.out, ref.err) && lab.Open(keyRace); try++ {
 		*raceRetries++
+		if try >= 2 {
+			time.Sleep(time.Duration(10<<(try-2)) * time.Millisecond)
+		}
 		ref = without.Run(c)
 	}
 	if ref.err != nil || ref.out == nil || len(ref.seen) != 1 {
